@@ -288,7 +288,9 @@ def single_cases(tier):
                         yield kind, dname, True, False, fl, dir_exists, dest
                 # short writes at the first write, then again, then an error afterwards
                 pre = 1 if dir_exists else 2       # faultable calls before the first write (mkstemp [+ makedirs])
-                for j in (0, 1, 5):
+                nch, nby = len(data), len(data.encode('utf-8'))
+                # short counts around the text's length in characters and in octets (they differ for non-ASCII text)
+                for j in sorted(set(x for x in (0, 1, 5, nch - 2, nch - 1, nch, nby - 3, nby - 2) if x >= 0)):
                     yield kind, dname, True, False, ['none'] * pre + [['short', j]], dir_exists, dest
                     yield kind, dname, True, False, ['none'] * pre + [['short', j], ['short', 0], ['short', 3]], dir_exists, dest
                     yield kind, dname, True, False, ['none'] * pre + [['short', j], 'error'], dir_exists, dest
